@@ -61,6 +61,11 @@ pub enum EncVariant {
     Raw { secret: Vec<u8>, token: Vec<u8> },
     /// a secret of this many bytes (≠ 16), correctly encrypted, honest token
     SecretLen(usize),
+    /// the secret honestly encrypted, the verify token of this connection sent back as it came: in
+    /// the clear (anybody who saw the Encryption Request can do that, no key needed)
+    ClearToken,
+    /// the token honestly encrypted, the shared secret in the clear
+    ClearSecret,
 }
 
 impl EncVariant {
@@ -76,6 +81,8 @@ impl EncVariant {
             EncVariant::OtherKey => "other-key".into(),
             EncVariant::Raw { secret, token } => format!("raw-{}-{}", secret.len(), token.len()),
             EncVariant::SecretLen(n) => format!("secret-len-{n}"),
+            EncVariant::ClearToken => "clear-token".into(),
+            EncVariant::ClearSecret => "clear-secret".into(),
         }
     }
 }
@@ -527,6 +534,8 @@ impl<'a, T: Transport> Client<'a, T> {
                 let s: Vec<u8> = (0..*n).map(|i| (i as u8).wrapping_mul(7).wrapping_add(3)).collect();
                 Pkt::EncryptionResponse { shared_secret: enc(&s), verify_token: enc(&token) }
             }
+            EncVariant::ClearToken => Pkt::EncryptionResponse { shared_secret: enc(&secret), verify_token: token.clone() },
+            EncVariant::ClearSecret => Pkt::EncryptionResponse { shared_secret: secret.clone(), verify_token: enc(&token) },
         })
     }
 
